@@ -114,7 +114,7 @@ class _RecCol:
         return SD.PV(z3.Const("cell!%s.%s" % (self.t.name, self.key), SD.PyVal))
 
 
-def run_creator(ctx, name, extra_kwargs=None, arg_override=None, std_for=None):
+def run_creator(ctx, name, extra_kwargs=None, arg_override=None, std_for=None, contracts_extra=None):
     fref = S.get_function(CR + ":" + name)
     ctx.use_function(fref)
     names, defaults, kwarg = params_of(fref)
@@ -176,6 +176,7 @@ def run_creator(ctx, name, extra_kwargs=None, arg_override=None, std_for=None):
         return args, dict(extra_kwargs or {})
     if std_for is not None:
         contracts["pandapipes.component_models.component_toolbox:retrieve_u"] = lambda ev, a, k: dict(a[0])
+    contracts.update(contracts_extra or {})
     ev = E.Evaluator(hooks={"global": glob}, contracts=contracts, max_paths=256)
     paths = ev.run_all(fref, mk)
     for p in paths:
@@ -754,3 +755,75 @@ def create_pipes_std_type_list(ctx):
             ok = isinstance(v, list) and len(v) == 2 and all(is_z3(x) for x in v) and \
                 v[0].eq(entry(s0)[c]) and v[1].eq(entry(s1)[c])
             ctx.decided("%s-of-row-k-is-that-of-the-k-th-type#%d" % (c, kx), "schema", ok, witness=repr(v))
+
+
+
+@unit("C16", "create_pipe/overrides", functions=[CR + ":create_pipe", CR + ":create_pipes"], engine="E5")
+def create_pipe_overrides(ctx):
+    """explicitly given k_mm / u_w_per_m2k -- ANY given value, also 0 -- replace the std type's value in the row; a value
+    that is not given leaves the type's parameter; single and bulk creation agree.  The two deprecation helpers are
+    replaced by their contract: they return the given value or None."""
+    ctx.assume("A6")
+    gk, gu = SD.PV(z3.Const("given!k_mm", SD.PyVal)), SD.PV(z3.Const("given!u_w_per_m2k", SD.PyVal))
+    std = {c: z3.Real("std!" + c) for c in ("inner_diameter_mm", "outer_diameter_mm", "k_mm", "u_w_per_m2k")}
+    extra = {"pandapipes.toolbox:_deprecation_check_u": (lambda ev, a, k: gu),
+             "pandapipes.toolbox:_deprecation_check_k": (lambda ev, a, k: gk)}
+    for fn, setter in (("create_pipe", "_set_entries"), ("create_pipes", "_set_multiple_entries")):
+        fref, names, defaults, paths = run_creator(ctx, fn, std_for=lambda sv: dict(std), contracts_extra=extra)
+        normal = [p for p in paths if p.exc is None]
+        ctx.decided("%s/paths" % fn, "cover", len(normal) >= 2, witness=str([str(p.exc) for p in paths]))
+        for kx, p in enumerate(normal):
+            sets = [t for t in p.args[0][0].trace if t[0] == setter]
+            if len(sets) != 1:
+                ctx.decided("%s/one-write#%d" % (fn, kx), "cover", False, witness=str(len(sets)))
+                continue
+            kw = sets[0][2]
+            for col, given in (("k_mm", gk), ("u_w_per_m2k", gu)):
+                v = kw.get(col)
+                is_given = isinstance(v, SD.PV) and v.t.eq(given.t)
+                is_std = is_z3(v) and v.eq(std[col])
+                ax = SD.pv_axioms()
+                ctx.ob("%s/%s/given-value-of-any-kind-reaches-the-row#%d" % (fn, col, kx), "ensures",
+                       ax + [p.cond(), z3.Not(given.is_none())], z3.BoolVal(bool(is_given)))
+                ctx.ob("%s/%s/type-parameter-when-not-given#%d" % (fn, col, kx), "ensures",
+                       ax + [p.cond(), given.is_none()], z3.BoolVal(bool(is_std)))
+
+
+@unit("C16", "deprecation_checks", functions=["pandapipes.toolbox:_deprecation_check_k", "pandapipes.toolbox:_deprecation_check_u"], engine="E1")
+def deprecation_checks(ctx):
+    """the contract assumed by create_pipe/overrides: the helpers hand back the value given by the caller (whatever it is),
+    else None (k: 0 for a std type without roughness); they remove the key from kwargs so that it is not written twice"""
+    ctx.assume("A6")
+    keys = ["k_mm", "u_w_per_m2k", "alpha_w_per_m2k", SD.KAPPA]
+    ax = lambda: SD.pv_axioms()
+    for fn, key in (("_deprecation_check_k", "k_mm"), ("_deprecation_check_u", "u_w_per_m2k")):
+        made = {}
+
+        def mk(_fn=fn):
+            kw = SD.SymDict(keys, "kwargs")
+            made["kw"] = kw
+            if _fn.endswith("_k"):
+                prm = SD.SymDict(["k_mm", SD.KAPPA], "params")
+                made["prm"] = prm
+                return [kw, prm], {}
+            return [kw], {}
+        paths = T.run_paths(ctx, "pandapipes.toolbox:" + fn, mk, dict_universe=keys)
+        ok = len(paths) >= 2 and all(p.exc is None for p in paths)
+        ctx.decided("%s/paths" % fn, "cover", ok, witness=str([str(p.exc) for p in paths]))
+        if not ok:
+            continue
+        kw0 = SD.SymDict(keys, "kwargs")
+        for kx, p in enumerate(paths):
+            res = p.result
+            given = kw0.present[key]
+            rt = SD.to_pv(res).t if res is not None else SD.pv_const(None)
+            ctx.ob("%s/given-value-returned#%d" % (fn, kx), "ensures", ax() + [p.cond(), given], rt == kw0.value[key])
+            ctx.ob("%s/key-removed-from-kwargs#%d" % (fn, kx), "ensures", ax() + [p.cond(), given],
+                   z3.Not(p.args[0][0].present[key]))
+            if fn.endswith("_u"):
+                ctx.ob("%s/none-when-nothing-given#%d" % (fn, kx), "ensures",
+                       ax() + [p.cond(), z3.Not(given), z3.Not(kw0.present["alpha_w_per_m2k"])], rt == SD.pv_const(None))
+            else:
+                prm0 = SD.SymDict(["k_mm", SD.KAPPA], "params")
+                ctx.ob("%s/none-when-the-type-has-a-roughness#%d" % (fn, kx), "ensures",
+                       ax() + [p.cond(), z3.Not(given), prm0.present["k_mm"]], rt == SD.pv_const(None))
